@@ -1328,6 +1328,7 @@ func runC04(c *core.Ctx) core.Meta {
 	checkTableWidths(c, t)
 	checkVOP3bMembership(c, t)
 	checkDstRegisterFile(c, t)
+	checkFlatOpcodes(c, t)
 	checkFieldCoverage(c, core.NewLocalProv(c))
 	checkSRegOperandRange(c)
 
